@@ -2215,10 +2215,19 @@ class DateAdapter(se.Adapter):
         self._multiplier = multiplier
 
     def decode(self, val: Any, ctx: Optional[se.ParseContext], pod: bool = False) -> Any:
-        return datetime.datetime.fromtimestamp(val / self._multiplier).isoformat()
+        # Integer arithmetic so sub-second digits survive, and an aware local time so the
+        # UTC offset in the string keeps the repeated hour at the end of DST unambiguous.
+        secs, frac = divmod(val, self._multiplier)
+        date = datetime.datetime.fromtimestamp(secs, tz=datetime.timezone.utc).astimezone()
+        return date.replace(microsecond=frac * (1_000_000 // self._multiplier)).isoformat()
 
     def encode(self, val: Any, ctx: Optional[se.ParseContext]) -> Any:
-        return int(datetime.datetime.fromisoformat(val).timestamp() * self._multiplier)
+        date = datetime.datetime.fromisoformat(val)
+        if date.tzinfo is None:
+            date = date.astimezone()
+        delta = date - datetime.datetime(1970, 1, 1, tzinfo=datetime.timezone.utc)
+        secs = delta.days * 86400 + delta.seconds
+        return secs * self._multiplier + delta.microseconds * self._multiplier // 1_000_000
 
 
 @se.enum_field_serializer("MeanCollisionAlert", "MeanCollision", "Type")
